@@ -27,6 +27,8 @@ SCRIPT = (4, 60, 16, 1500)   # scheduled scripts: cheap per case, fewer cases
 CHECKS = {
     "C01": seq(["TestC01"]),
     "C02": seq(["TestC02Seq", "TestC02Race"], per_test={"TestC02Race": SCRIPT}),
+    "C03": seq(["TestC03"], qchecks=60, tchecks=3000, qshards=8),
+    "C04": seq(["TestC04Clock", "TestC04Bucket", "TestC04Reopen"], per_test={"TestC04Clock": (2, 3000, 8, 200000), "TestC04Reopen": (4, 40, 16, 1500)}),
     "C05": seq(["TestC05"]),
     "C06": seq(["TestC06"]),
     "C07": seq(["TestC07"]),
